@@ -193,21 +193,61 @@ def check(run):
                "(C10-R1), and decoding unreserved escapes cannot create or remove a delimiter")
     run.floor("R2-layout", 6)
 
+    # which occurrence of the delimiter separates the parts (RFC 3986 3.2.1): the user name ends at the FIRST ':' of the userinfo
+    # (a password may contain ':'), the userinfo ends at the LAST '@' of the authority
+    pa_ = prog.fn("decoders.network.parse_authority")
+    hits_a, ip_a, _n = A.run(pa_)
+    first_colon = last_at = None
+    for h in hits_a:
+        if prov.const_field(h, "type") != "network.url.username":
+            continue
+        t = prov.value_term(h)
+        while isinstance(t, tuple) and t and t[0] in ("unquote_to_bytes", "decode", "lower"):
+            t = t[1]
+        # t: the user-name text; u: the userinfo text it was cut from
+        if isinstance(t, tuple) and t[:2] == ("piece", 0) and isinstance(t[2], tuple) and t[2][:1] in (("piece",), ("rpartition",), ("partition",)):
+            # (only the shape userinfo-piece-of-authority is unambiguous: a bare piece(0, authority) is the userinfo itself)
+            u = t[2]
+            ops = ip_a.split_ops.get(repr(u), set())
+            colon = {n_ for n_, sp in ops if sp == b":"}
+            first_colon = (colon == {"split"}) if first_colon is None else (first_colon and colon == {"split"})
+        elif isinstance(t, tuple) and t[:2] in (("partition", 0), ("rpartition", 0)) and t[3:] == (("const", b":"),):
+            u = t[2]
+            first_colon = (t[0] == "partition") if first_colon is None else (first_colon and t[0] == "partition")
+        else:
+            continue
+        if isinstance(u, tuple) and u[:2] == ("piece", 0):
+            ops = ip_a.split_ops.get(repr(u[2]), set())
+            at = {n_ for n_, sp in ops if sp == b"@"}
+            last_at = (at == {"rsplit"}) if last_at is None else (last_at and at == {"rsplit"})
+        elif isinstance(u, tuple) and u[:2] in (("partition", 0), ("rpartition", 0)) and u[3:] == (("const", b"@"),):
+            last_at = (u[0] == "rpartition") if last_at is None else (last_at and u[0] == "rpartition")
+    run.ob("R2-layout", "decoders.network.parse_authority/user-name-ends-at-first-colon", first_colon is True, w(pa_.node),
+           "the user name is the userinfo up to its FIRST ':' (the password may contain ':')",
+           "the userinfo is split at its last ':' (rsplit / rpartition) or the split was not recognised", mech="provenance term of the user-name value + split direction")
+    run.ob("R2-layout", "decoders.network.parse_authority/userinfo-ends-at-last-at", last_at is True, w(pa_.node),
+           "the userinfo is the authority up to its LAST '@'",
+           "the authority is split at its first '@' (split / partition) or the split was not recognised", mech="provenance term of the user-name value + split direction")
+
     # ------------------------------------------------------------------ R4 label guards
     # MixedCase
     ok4 = False
     for n in own_nodes(pu.node):
-        if isinstance(n, ast.IfExp) and prog.try_fold(nm, n.body) == "MixedCase":
+        if isinstance(n, ast.IfExp) and "MixedCase" in (prog.try_fold(nm, n.body), prog.try_fold(nm, n.orelse)):
             U = pu.params[0]
             SPL = None
             for st in own_nodes(pu.node):
                 if isinstance(st, ast.Assign) and isinstance(st.value, ast.Call) and prog.dotted(nm, st.value.func) == "urllib.parse.urlsplit":
                     SPL = st.targets[0].id
-            az = G.Atomizer(rename={U: "TEXT", SPL: "URL"} if SPL else {})
-            got = az.formula(n.test)
+            envm = common.block_env(pu.body, common.enclosing_stmt(n)) or {}
+            envm = {k: v for k, v in envm.items() if k not in (U, SPL)}
+            az = G.Atomizer(rename={U: "TEXT", SPL: "URL"} if SPL else {}, subst=envm, rewrite=[("TEXT[0:", "TEXT[:")])
+            cases = common.split_ifexp(n, az)
+            got = G.f_or(*[c_ for c_, leaf in cases if prog.try_fold(nm, leaf) == "MixedCase"])
+            got_e = G.f_or(*[c_ for c_, leaf in cases if prog.try_fold(nm, leaf) == ""]) if any(prog.try_fold(nm, leaf) == "" for _c, leaf in cases) else G.F
             spec = az.formula(common.spec_expr("TEXT[0:len(URL.scheme)] not in (URL.scheme, URL.scheme.upper())"))
             alt = az.formula(common.spec_expr("TEXT[:len(URL.scheme)] not in (URL.scheme, URL.scheme.upper())"))
-            ok4 = (G.equivalent(got, spec)[0] or G.equivalent(got, alt)[0]) and prog.try_fold(nm, n.orelse) == ""
+            ok4 = (G.equivalent(got, spec)[0] or G.equivalent(got, alt)[0]) and (G.equivalent(got_e, G.f_not(spec))[0] or G.equivalent(got_e, G.f_not(alt))[0])
     run.ob("R4-labels", "decoders.network.parse_url/MixedCase-guard", ok4, w(pu.node), "the scheme is labelled MixedCase exactly when its text is neither the lower-case nor the upper-case scheme",
            "", mech="truth table")
     np_ = prog.fn("decoders.network.normalize_path")
